@@ -597,6 +597,20 @@ thread_local! {
     pub static COLLECTED: std::cell::RefCell<Vec<Value>> = const { std::cell::RefCell::new(Vec::new()) };
     pub static RUN_FAILED: std::cell::Cell<bool> = const { std::cell::Cell::new(false) };
 }
+/// the same value with every atom (number, keyword, name) as its bytes; tags stay strings
+fn atoms_as_bytes(v: &Value, keep_first: bool) -> Value {
+    match v {
+        Value::Array(a) => {
+            let tagged = keep_first || matches!(a.first().and_then(|x| x.as_str()), Some("some") | Some("none"));
+            Value::Array(a.iter().enumerate().map(|(i, x)| {
+                if i == 0 && tagged && x.is_string() { x.clone() } else { atoms_as_bytes(x, false) }
+            }).collect())
+        }
+        Value::String(st) => bytes_json(st.as_bytes()),
+        other => other.clone(),
+    }
+}
+
 /// the following runs must end cleanly and return exactly these items (round trip, C03)
 pub fn set_expect(e: Option<Value>) {
     EXPECT.with(|c| *c.borrow_mut() = e);
@@ -616,7 +630,9 @@ pub fn run_traced(id: u64, input: &[u8], cfg: &RunCfg) {
     trace::rec(json!({"ev":"reset","kind":"parser","id":id,"group":group,
         "corrupt":cor.is_some(),"cline":cor.map_or(0, |c| c.0),"clo":cor.map_or(0, |c| c.1),"chi":cor.map_or(0, |c| c.2),
         "ckind":cor.map_or("", |c| c.3),
-        "has_expect":expect.is_some(),"expect":expect.unwrap_or(json!([])),"parser":cfg.parser,"lit":cfg.lit,"flag":cfg.flag,
+        "has_expect":expect.is_some(),"written":expect.is_some(),
+        "expect_b": expect.as_ref().map_or(json!([]), |e| Value::Array(e.as_array().unwrap().iter().map(|it| atoms_as_bytes(it, true)).collect())),
+        "expect":expect.unwrap_or(json!([])),"parser":cfg.parser,"lit":cfg.lit,"flag":cfg.flag,
         "input":bytes_json(input),"limit":limit,"faulty":cfg.fault.is_some(),"chunk":cfg.chunk,
         "policy":policy_json(&cfg.policy),"lines": matches!(cfg.policy, Policy::Lines), "intr":cfg.intr_pm > 0,
         "ref":cfg.is_ref,"build":cfg.build,"bufreader":cfg.bufreader.is_some()}));
